@@ -463,12 +463,27 @@ def run_batch(cfg, cases, shards=None, timeout=600, wrapper=None, env=None, keep
         slow = [c for c in cases if results.get(c["id"], {}).get("abort", {}).get("why") == "timeout"]
         # (only when the batch had one or two of them: that is what load does to a healthy tree; a batch in which many
         # cases hang is a broken tree, and a second opinion on each would cost minutes without changing the verdict)
-        for c in (slow if len(slow) <= 2 else []):
+        def alone(c):
             r2 = run_batch(cfg, [c], shards=1, timeout=max(timeout, 600), wrapper=wrapper, env=env, cmd=cmd,
                            case_timeout=4 * (case_timeout or CASE_TIMEOUT), _retry=True)[0]
             if "abort" in r2 and r2["abort"].get("why") == "timeout":
                 r2["abort"]["status"] = list(r2["abort"].get("status", [])) + ["timed out again when run alone"]
             results[c["id"]] = r2
+            return "abort" in r2 and r2["abort"].get("why") == "timeout"
+        if len(slow) <= 2:
+            for c in slow:
+                alone(c)
+        else:
+            # many time-outs: a broken tree - or a machine carrying a load far above its cores (false alarm of C06 thorough
+            # while seven seeded-change shards and four thorough tiers ran: a 0.5 s program). The first three decide which:
+            # if none of them times out on its own, the time-outs say nothing about the tree; up to 40 more get a run of
+            # their own and the rest are marked not-run (never judged, the check ends inconclusive).
+            if not any([alone(c) for c in slow[:3]]):
+                for i, c in enumerate(slow[3:]):
+                    if i < 40:
+                        alone(c)
+                    else:
+                        results[c["id"]] = {"id": c["id"], "abort": {"why": "not-run", "status": ["not-run", "watchdog fired on a machine where time-outs did not reproduce"]}}
     missing = [c["id"] for c in cases if c["id"] not in results]
     if missing:
         raise Inconclusive("runner produced no result for %d cases (e.g. %s)" % (len(missing), missing[0]))
